@@ -39,7 +39,7 @@ try:
     if ok:
         os.makedirs(dst, exist_ok=True)
         for f in ('patch.diff', 'demo.py', 'notes.md'):
-            if os.path.exists(os.path.join(sd, f)):
+            if os.path.exists(os.path.join(sd, f)) and os.path.realpath(os.path.join(sd, f)) != os.path.realpath(os.path.join(dst, f)):
                 shutil.copy(os.path.join(sd, f), os.path.join(dst, f))
         json.dump(meta, open(os.path.join(dst, 'meta.json'), 'w'), indent=1)
     print(json.dumps({k: meta[k] for k in ('id', 'confirmed', 'demo_exit_clean', 'demo_exit_patched', 'unit_tests', 'check_exit', 'caught')}), flush=True)
